@@ -120,7 +120,7 @@ def reader_paths(F, rep, which=("seal", "open")):
         locks = [c for c in f.calls if c.name == "lock"]
         calls_f = [c for c in f.calls if c.name in ("call_once", "call_mut", "call")]
         cs = [c for c in f.cmp_switches() if ("field:generation" in f.origins(c["a"], through_calls=()) or "field:generation" in f.origins(c["b"], through_calls=()))]
-        ok = len(lrl) == 1 and len(locks) == 1 and len(calls_f) == 2 and len(cs) == 1 and len(unsync) == 1
+        ok = len(lrl) == 1 and len(locks) == 1 and len(calls_f) == 2 and len(cs) == 1 and len(unsync) >= 1
         fast = slow = None
         if ok:
             c = cs[0]
